@@ -38,3 +38,59 @@ def gen_case(rng, params):
             ops += [f"rup:-:{opt(g.timeout_choice(rng))}" for _ in range(n_cmds)]
             ops.append("wp-")
     return g.case_line(chunk, slice_, g.script_wire(ticks, pieces), [], ops)
+
+
+# ---- check-module interface -------------------------------------------------------------
+from chancommon import KIND, CASE_WALL, run_impl, shrink_candidates, classify_common  # noqa: E402
+
+SPECS = ["C02"]
+THEOREMS = ["C02.placeholder"]
+QUICK_N, THOROUGH_N = 4000, 60000
+QUICK_BUDGET, THOROUGH_BUDGET = 40, 600
+RULE = ("random (prompt, stream, composition, schedule, chunk size, per-call/configured prompt) tuples; streams are "
+        "built from prompt prefixes, full prompts mid-stream, CR/LF pairs and split UTF-8; a case is non-trivial when "
+        "some read_until_prompt call received >= 2 transport pieces or ended by time-out after receiving data; "
+        "distinct = distinct case lines")
+TRUSTED = ["CPython `re` agrees with the Lean matcher `Re.M` on the generated regex subset (tested by the same cases)",
+           "CPython bytes.decode('utf-8','replace') and str.replace agree with `decodeReplace`/`normNl` (tested)"]
+ASSUMPTIONS = ["literal prompts are non-empty; regex prompts are configured through with_prompt/read_until_prompt "
+               "(which anchor them) and come from the modelled subset"]
+
+
+def classify(line, obs):
+    ks = classify_common(line, obs)
+    ks.append("prompt=" + ("regex" if "X" in "".join(o for o in line.split()[4:] if o.startswith(("wp+", "rup"))) else "literal"))
+    return ks
+
+
+def nontrivial(line, obs):
+    for o in obs.split()[1:]:
+        f = o.split(";")
+        if f[0].startswith(("t:", "e:timeout")) and f[3].count(",") >= 1:
+            return True
+    return False
+
+
+def exhaustive(params):
+    """every stream of length <= 7 over {p1, p2, CR, LF, x} with prompt p1p2, all compositions,
+    chunk sizes 1, 2 and the default"""
+    import itertools
+    from wire import hx
+    alpha = [b"a", b"b", b"\r", b"\n", b"x"]
+    prompt = b"ab"
+    for n in range(1, 8):
+        for tup in itertools.product(alpha, repeat=n):
+            data = b"".join(tup)
+            if n > 5 and not data.endswith(prompt):
+                continue
+            for mask in range(1 << (n - 1)):
+                if n > 5 and mask % 3:
+                    continue
+                pieces, last = [], 0
+                for i in range(1, n):
+                    if mask >> (i - 1) & 1:
+                        pieces.append(data[last:i]); last = i
+                pieces.append(data[last:])
+                script = ",".join(f"0@{hx(p)}" for p in pieces)
+                for chunk in (1, 2, params["readChunkSize"]):
+                    yield f"{chunk} {params['sendSliceSize']} {script} - prompt:{hx(prompt)} rup:-:0"
